@@ -209,3 +209,153 @@ TARGETS = {
     'T20': {'file': 'seg/sop.py', 'build': build_T20},
     'T21': {'file': 'seg/sop.py', 'build': build_T21},
 }
+
+
+# ------------------------------------------------------------------------------------------------------------
+# Tie pass: the decisions of hand-written model functions, expression by expression (bridged in Proofs/SegTie.lean)
+# ------------------------------------------------------------------------------------------------------------
+def _one(nodes, what):
+    if len(nodes) != 1:
+        raise Unsupported(f'expected exactly one {what}, found {len(nodes)}')
+    return nodes[0]
+
+
+def _ret_expr(node):
+    r = ast.Return(value=node)
+    ast.fix_missing_locations(r)
+    return r
+
+
+_OVERLAP_CODE = {'NO': 0, 'YES': 1, 'UNDEFINED': 2}
+
+
+class _OverlapToReturn(ast.NodeTransformer):
+    """`segments_overlap = SegmentsOverlapValues.X` -> `return <code>`; `sum_over_segments = pixel_array.sum(axis=-1)` dropped"""
+    def visit_Assign(self, node):
+        t = ast.unparse(node.targets[0])
+        if t == 'segments_overlap':
+            v = ast.unparse(node.value)
+            if not v.startswith('SegmentsOverlapValues.'):
+                raise Unsupported('segments_overlap assigned something unexpected: ' + v)
+            return ast.copy_location(ast.Return(value=ast.Constant(value=_OVERLAP_CODE[v.split('.')[1]])), node)
+        if t == 'sum_over_segments':
+            if _norm(node.value) != 'pixel_array.sum(axis=-1)':
+                raise Unsupported('sum_over_segments is no longer pixel_array.sum(axis=-1)')
+            return None
+        return node
+
+
+def build_T22(tree):
+    """Value guards of `_check_and_cast_pixel_array`, integer and float branches: the fast test for undescribed labels,
+    the refusal of non-binary stacks, the overlap decision for integer stacks, the range test and the "non-boolean"
+    test for floats."""
+    fn = find_func(tree, 'Segmentation._check_and_cast_pixel_array')
+    texts = []
+    # (1) has_undescribed_segments = pixel_array.max() > number_of_segments
+    fast = _one([n for n in ast.walk(fn) if isinstance(n, ast.Assign) and ast.unparse(n.targets[0]) == 'has_undescribed_segments'
+                 and 'pixel_array.max()' in ast.unparse(n.value)], 'fast undescribed-label test')
+    texts.append(translate_block([_ret_expr(fast.value)], 'castUndescribedFast', [('number_of_segments', 'int')],
+                                 {'pixel_array.max()': ('int', 'maxPixel')},
+                                 doc='label-map input, described numbers 1..n: is a label undescribed?'))
+    # (2) if max_pixel > 1: raise ValueError
+    stk = _one([n for n in ast.walk(fn) if isinstance(n, ast.If) and 'max_pixel' in ast.unparse(n.test)
+                and len(n.body) == 1 and isinstance(n.body[0], ast.Raise)], 'non-binary stack refusal')
+    blk = [ast.parse(ast.unparse(stk)).body[0], ast.parse('return max_pixel').body[0]]
+    texts.append(translate_block(blk, 'castStackMaxGuard', [('max_pixel', 'int')], {},
+                                 doc='stacked integer input: refusal on the largest pixel value (result = accepted maximum)'))
+    # (3) overlap decision of the integer stack branch
+    ov = _one([n for n in ast.walk(fn) if isinstance(n, ast.If) and _norm(n.test) == 'max_pixel==0'], 'overlap decision (max_pixel == 0 ...)')
+    ov2 = _OverlapToReturn().visit(ast.parse(ast.unparse(ov)).body[0])
+    ast.fix_missing_locations(ov2)
+    texts.append(translate_block([ov2], 'castOverlapInt', [('max_pixel', 'int')],
+                                 {'pixel_array.shape[-1]': ('int', 'lastDim'), 'np.any(sum_over_segments > 1)': ('bool', 'anyOver')},
+                                 doc='stacked integer input: SegmentsOverlap (0 = NO, 1 = YES, 2 = UNDEFINED); `anyOver` = some '
+                                     'pixel has `castOverlapSum`'))
+    anyc = _one([n for n in ast.walk(ov) if isinstance(n, ast.Call) and ast.unparse(n.func) == 'np.any'], 'np.any(sum_over_segments > ...)')
+    texts.append(translate_block([_ret_expr(anyc.args[0])], 'castOverlapSum', [('sum_over_segments', 'int')], {},
+                                 doc='per pixel: do the segments overlap there (sum over the channel axis)'))
+    # (4) floats: range
+    rng = _one([n for n in ast.walk(fn) if isinstance(n, ast.If) and 'np.min(unique_values)' in ast.unparse(n.test)
+                and len(n.body) == 1 and isinstance(n.body[0], ast.Raise)], 'float range refusal')
+    blk = [ast.parse(ast.unparse(rng)).body[0], ast.parse('return 0').body[0]]
+    texts.append(translate_block(blk, 'castFloatRange', [],
+                                 {'np.min(unique_values)': ('rat', 'minValue'), 'np.max(unique_values)': ('rat', 'maxValue')},
+                                 doc='float input: refusal on the smallest / largest value'))
+    # (5) floats: non-boolean values for BINARY / LABELMAP
+    nb = _one([n for n in ast.walk(fn) if isinstance(n, ast.Assign) and ast.unparse(n.targets[0]) == 'non_boolean_values'],
+              'non_boolean_values')
+    if not (isinstance(nb.value, ast.Call) and ast.unparse(nb.value.func) == 'np.logical_and' and len(nb.value.args) == 2):
+        raise Unsupported('non_boolean_values is no longer np.logical_and(a, b)')
+    conj = ast.BoolOp(op=ast.And(), values=list(nb.value.args))
+    texts.append(translate_block([_ret_expr(conj)], 'castFloatNonBoolean', [('unique_values', 'rat')], {},
+                                 doc='float input for BINARY / LABELMAP, per value: is it a genuine fraction (refused)?'))
+    return '\n\n'.join(texts), span_sha([fast, stk, ov, rng, nb])
+
+
+def build_T23(tree):
+    """Decisions of the frame loop and of `_get_segment_pixel_array`: when a single-segment frame is skipped, which
+    channel of a stack is segment s, when and how binary values are stretched, the product that is rounded."""
+    init = find_func(tree, 'Segmentation.__init__')
+    skip = _one([n for n in ast.walk(init) if isinstance(n, ast.If) and 'np.any(segment_array)' in ast.unparse(n.test)],
+                'empty-frame skip test')
+    if not any(isinstance(s, ast.Continue) for s in skip.body):
+        raise Unsupported('the empty-frame test no longer skips with `continue`')
+    outer = [n for n in ast.walk(init) if isinstance(n, ast.If) and skip in n.body]
+    if len(outer) != 1 or _norm(outer[0].test) != 'segment_numberisnotNone':
+        raise Unsupported('the empty-frame skip is no longer guarded by `segment_number is not None`')
+    texts = [translate_block([_ret_expr(skip.test)], 'loopSkipGuard', [('omit_empty_frames', 'bool')],
+                             {'np.any(segment_array)': ('bool', 'anySet')},
+                             doc='frame loop, single-segment frames: is this frame skipped?')]
+    fn = find_func(tree, 'Segmentation._get_segment_pixel_array')
+    subs = [n for n in ast.walk(fn) if isinstance(n, ast.Subscript) and ast.unparse(n.value) == 'pixel_array'
+            and isinstance(n.slice, ast.Tuple) and len(n.slice.elts) == 3]
+    idx = {_norm(n.slice.elts[2]) for n in subs}
+    if len(subs) != 2 or len(idx) != 1 or any(_norm(e) != ':' for n in subs for e in n.slice.elts[:2]):
+        raise Unsupported('channel selection pixel_array[:, :, <index>] changed: ' + ' ; '.join(ast.unparse(n) for n in subs))
+    texts.append(translate_block([_ret_expr(subs[0].slice.elts[2])], 'segChannelIndex', [('segment_number', 'int')], {},
+                                 doc='stacked input: the channel holding segment `segment_number`'))
+    st = _one([n for n in ast.walk(fn) if isinstance(n, ast.If) and _norm(n.test).startswith('int(max_fractional_value)')],
+              'stretch guard')
+    texts.append(translate_block([_ret_expr(st.test)], 'segStretchGuard', [('max_fractional_value', 'int')], {},
+                                 doc='FRACTIONAL from binary values: are they multiplied at all?'))
+    if len(st.body) != 1 or not isinstance(st.body[0], ast.Assign) or ast.unparse(st.body[0].targets[0]) != 'segment_array':
+        raise Unsupported('stretch statement is no longer `segment_array = <expression>`')
+    texts.append(translate_block([_ret_expr(st.body[0].value)], 'segStretchValue',
+                                 [('segment_array', 'int'), ('max_fractional_value', 'int')], {},
+                                 doc='... and the value a binary pixel is replaced by'))
+    ar = _one([n for n in ast.walk(fn) if isinstance(n, ast.Call) and ast.unparse(n.func) == 'np.around'], 'np.around(...)')
+    texts.append(translate_block([_ret_expr(ar.args[0])], 'segFractionProduct',
+                                 [('segment_array', 'rat'), ('max_fractional_value', 'int')], {},
+                                 doc='FRACTIONAL from fractions: the product handed to np.around (round half to even)'))
+    return '\n\n'.join(texts), span_sha([skip, st]) + span_sha([ast.Expr(value=subs[0]), ast.Expr(value=ar)])[:8]
+
+
+def build_T24(tree):
+    """Source-frame numbering: the frame number `_get_pffg_item` records for source plane `source_image_index`, and
+    the tests `get_pixels_by_source_frame` applies to requested numbers (positive; not above the highest referenced)."""
+    fn = find_func(tree, 'Segmentation._get_pffg_item')
+    de = _one([n for n in ast.walk(fn) if isinstance(n, ast.Call) and ast.unparse(n.func) == 'DataElement'
+               and n.args and isinstance(n.args[0], ast.Constant) and n.args[0].value == 0x00081160], 'ReferencedFrameNumber element')
+    texts = [translate_block([_ret_expr(de.args[2])], 'pffgFrameNumber', [('source_image_index', 'int')], {},
+                             doc='`_get_pffg_item`: ReferencedFrameNumber of source plane `source_image_index` (multi-frame source)')]
+    rd = find_func(tree, 'Segmentation.get_pixels_by_source_frame')
+    pos = _one([n for n in ast.walk(rd) if isinstance(n, ast.GeneratorExp) and _norm(n.generators[0].iter) == 'source_frame_numbers'
+                and isinstance(n.elt, ast.Compare)], 'all(f > 0 for f in source_frame_numbers)')
+    texts.append(translate_block([_ret_expr(pos.elt)], 'srcFramePositive', [(pos.generators[0].target.id, 'int')], {},
+                                 doc='`get_pixels_by_source_frame`: a requested frame number is admissible'))
+    loop = _one([n for n in ast.walk(rd) if isinstance(n, ast.For) and _norm(n.iter) == 'source_frame_numbers'], 'loop over requested numbers')
+    g = _one([n for n in loop.body if isinstance(n, ast.If)], 'missing-frame test')
+    if not any(isinstance(s, ast.Raise) and 'ValueError' in ast.unparse(s) for s in g.body):
+        raise Unsupported('the missing-frame test no longer raises ValueError')
+    enclosing = [n for n in ast.walk(rd) if isinstance(n, ast.If) and loop in n.body]
+    if len(enclosing) != 1 or _norm(enclosing[0].test) != 'notassert_missing_frames_are_empty':
+        raise Unsupported('the missing-frame loop is no longer under `if not assert_missing_frames_are_empty`')
+    texts.append(translate_block([_ret_expr(g.test)], 'srcFrameMissing',
+                                 [(loop.target.id, 'int'), ('max_frame_number', 'int')], {},
+                                 doc='... is refused as missing (ValueError) unless the caller asserts that missing frames are empty'))
+    return '\n\n'.join(texts), span_sha([g]) + span_sha([ast.Expr(value=de), ast.Expr(value=pos)])[:8]
+
+
+TARGETS['T22'] = {'file': 'seg/sop.py', 'build': build_T22}
+TARGETS['T23'] = {'file': 'seg/sop.py', 'build': build_T23}
+TARGETS['T24'] = {'file': 'seg/sop.py', 'build': build_T24}
